@@ -103,6 +103,10 @@ class DualEquilibration(PenaltyStrategy):
 
         target_rho = 0.01 * yprod / viol
 
+        if not np.isfinite(target_rho):
+            # the products overflowed (single precision): keep the penalty finite
+            return PenaltyResult.accept_with_penalty(self.rho)
+
         if self.rho < target_rho:
             next_rho = max(self.rho * 10.0, target_rho)
             assert next_rho > self.rho
